@@ -120,7 +120,7 @@ def strip_report(text, keep_filename=False):
     text = _TS.sub("Timestamp:", text)
     if not keep_filename:
         text = _FN.sub("Analyzed file:", text)
-    return text
+    return text.rstrip("\n") + "\n"
 
 
 def run_cli_inprocess(path, **kw):
